@@ -202,7 +202,7 @@ class IpH(explore.Harness):
 
         st = (st, _c.canon(pr, depth=2, skip=("connection", "loop", "transport", "encryptor", "decryptor", "c2a_key", "a2c_key")) if pr is not None else None)
         return (st, cur.cid if cur else None, tuple(sorted(self.part.items())), tuple(len(v) for v in self.queue.values()), tuple((t.done(), t.cancelled()) for t in self.tasks), len(self.net.conns),
-                tuple(sorted(round(h._when - self.loop.time(), 6) for h in self.loop._scheduled if not h._cancelled)), len(self.log.events))
+                tuple(sorted(round(h._when - self.loop.time(), 6) for h in self.loop._scheduled if not h._cancelled)), len(self.log.events), _c.tasks_sig(self.loop))
 
     def outcome(self):
         return f"conns={len(self.net.conns)},accepted={len(self.log.accepted())},tasks={len(self.tasks)}"
